@@ -25,7 +25,8 @@ REQUIRED = ['maskOffsets_length', 'maskOffsets_recorded', 'maskOffsets_marks', '
             'gen_clevel_size', 'gen_clevel_dim', 'clevelRequired_ge_size']
 # bridge + property theorems of the regenerated method kernels (row limit of the SICD / SIDD writers, block and image sizes)
 K2_REQUIRED = ['gen_sicd_row_limit', 'gen_sidd_row_limit', 'requestedRows_range', 'rowLimit_le', 'rowLimit_bytes', 'rowLimit_pos', 'rowLimit_honours',
-               'gen_block_size', 'gen_block_size0', 'gen_full_image_size', 'gen_full_image_size0', 'blockBytes_whole_bytes']
+               'gen_block_size', 'gen_block_size0', 'gen_full_image_size', 'gen_full_image_size0', 'blockBytes_whole_bytes',
+               'gen_image_clevel', 'gen_image_clevel0', 'clevelForDim_mono']
 
 
 def dms_to_deg(s, is_lat):
